@@ -49,9 +49,11 @@ Estimate(i) ==
 
 \* the refinement loop of findTailHeight: move up while the header is older than the expected tail time
 \* (the loop only looks at headers the store has: below the local head)
+\* (i.sth = the store's Height() when the tail is computed: the local head, or the adjacent new head if the flush
+\* goroutine has already taken it in — both happen, see Export)
 RECURSIVE Refine(_, _, _)
 Refine(i, new, expected) ==
-  IF new > i.tail /\ new < i.shead /\ expected > TimeOf(i.pat, new) THEN Refine(i, new + 1, expected) ELSE new
+  IF new > i.tail /\ new < i.sth /\ expected > TimeOf(i.pat, new) THEN Refine(i, new + 1, expected) ELSE new
 
 \* findTailHeight
 Find(i) ==
@@ -69,7 +71,7 @@ Find(i) ==
             ELSE Res("ok", Refine(i, est, expected))
 
 \* tailHeight + renewTail + moveTail: the final outcome
-Predicted(i) ==
+PredictedAt(i) ==
   LET th == IF i.sfh > 0 THEN Res("ok", i.sfh)
             ELSE IF i.tail = 0 THEN Estimate(i)
             ELSE Find(i)
@@ -79,6 +81,14 @@ Predicted(i) ==
   ELSE IF th.tail > i.nhead THEN Res("error", i.tail)                              \* nobody has that header yet
   ELSE IF i.tail # 0 /\ th.tail > i.shead + 1 /\ th.tail > i.tail THEN Res("error", i.tail)   \* DeleteRange beyond the local head+1
   ELSE Res("ok", th.tail)
+
+Predicted(i0) ==
+  LET i == [bt |-> i0.bt, w |-> i0.w, tp |-> i0.tp, sfh |-> i0.sfh, pat |-> i0.pat, tail |-> i0.tail, shead |-> i0.shead,
+            nhead |-> i0.nhead, sth |-> i0.shead] IN PredictedAt(i)
+\* the same with the adjacent new head already counted in Height()
+PredictedAlt(i0) ==
+  LET i == [bt |-> i0.bt, w |-> i0.w, tp |-> i0.tp, sfh |-> i0.sfh, pat |-> i0.pat, tail |-> i0.tail, shead |-> i0.shead,
+            nhead |-> i0.nhead, sth |-> IF i0.nhead = i0.shead + 1 THEN i0.nhead ELSE i0.shead] IN PredictedAt(i)
 
 \* property layer
 Spaced(i) == i.bt > 0 /\ \A h \in 1..(i.nhead - 1) : TimeOf(i.pat, h + 1) - TimeOf(i.pat, h) <= i.bt
@@ -96,8 +106,9 @@ Next == phase = "in" /\ phase' = "out" /\ out' = Predicted(in) /\ UNCHANGED in
 Faster(i) == i.bt > 0 /\ \E h \in 1..(i.nhead - 1) : TimeOf(i.pat, h + 1) - TimeOf(i.pat, h) < i.bt
 KFOverprune(i, r) == "KF-C16-overprune" \in Known /\ r.kind = "ok" /\ Faster(i)
 KFTailAboveHead(i, r) == "KF-C16-tail-above-head" \in Known /\ r.kind = "error" /\ i.tail # 0 /\ i.nhead > i.shead + 1
-PredictedAllowed == phase = "out" => Allowed(in, out) \/ KFOverprune(in, out) \/ KFTailAboveHead(in, out)
-Export == phase = "out" => PrintT(ToJson([k |-> "C16", in |-> in, predicted |-> out, allowed |-> Allowed(in, out),
+AllowedOrKnown(i, r) == Allowed(i, r) \/ KFOverprune(i, r) \/ KFTailAboveHead(i, r)
+PredictedAllowed == phase = "out" => AllowedOrKnown(in, out) /\ AllowedOrKnown(in, PredictedAlt(in))
+Export == phase = "out" => PrintT(ToJson([k |-> "C16", in |-> in, predicted |-> out, alt |-> PredictedAlt(in), allowed |-> Allowed(in, out),
                                           kf |-> (KFOverprune(in, out) \/ KFTailAboveHead(in, out)),
                                           spaced |-> Spaced(in), times |-> [h \in 1..MaxH |-> TimeOf(in.pat, h)]]))
 =============================================================================
